@@ -1672,12 +1672,14 @@ fn search_parse_diag(obs: &[&str]) {
         "interface org.example.c\n\n\n  method   M ( )->( )\n\ntype X (a: object, b: [string](), c: ?X)",
         // multi-byte whitespace in front of the tokens of a line: a column counted in bytes runs past the line
         "interface org.example.d\nmethod\u{3000}Foo(a:\u{a0}int) -> (b: string)\n\u{3000}type\u{3000}T (x: bool)\n",
+        // every line-ending convention the grammar accepts: U+2028, U+2029, a lone CR
+        "interface org.example.e\u{2028}method Foo(a: int) -> (b: string)\u{2029}\u{2029}type T (x: bool)\rerror E ()\r\u{2028}method Bar() -> ()\n",
     ];
     let mut texts: Vec<String> = Vec::new();
     for b in bases {
         let chars: Vec<char> = b.chars().collect();
         for cut in 0..chars.len() { texts.push(chars[..cut].iter().collect()); }
-        for at in 0..chars.len() { for c in ['$', '\n', '(', '\u{e9}', '\r'] { let mut v = chars.clone(); v[at] = c; texts.push(v.iter().collect()); } }
+        for at in 0..chars.len() { for c in ['$', '\n', '(', '\u{e9}', '\r', '\u{2028}'] { let mut v = chars.clone(); v[at] = c; texts.push(v.iter().collect()); } }
     }
     for t in texts {
         explored += 1;
@@ -1699,6 +1701,47 @@ fn search_parse_diag(obs: &[&str]) {
         let f = found.get(class).or_else(|| found.get("panic")).or_else(|| found.get("line"));
         emit(ob, f.is_some(), explored, f.cloned().unwrap_or(Value::Null));
     }
+}
+
+// C12, BOUNDED: parsing returns -- with a definition or an error, without panicking or overflowing the stack -- for struct nesting up to the property's "fixed generous depth" (200), valid and with an
+// error at the innermost level, within a generous time limit.  Child process per text (a runaway parse cannot be stopped from inside): the clean tree needs milliseconds, the limit is 20 s.
+fn parse_probe(depth: usize, kind: &str) -> i32 {
+    use std::convert::TryFrom;
+    let mut t = String::from("interface org.example.deep\n\nmethod M(a: ");
+    for k in 0..depth { t.push_str(&format!("(f{}: ", k % 10)); }
+    t.push_str(match kind { "valid" => "int", "typo" => "in t", "cut" => "", _ => "?? int" });
+    if kind != "cut" { for _ in 0..depth { t.push(')'); } t.push_str(") -> ()\n"); }
+    let r = std::thread::Builder::new().stack_size(8 << 20).spawn(move || varlink_parser::IDL::try_from(t.as_str()).map(|_| ()).map_err(|e| e.to_string())).unwrap().join();
+    match r { Ok(Ok(())) => 0, Ok(Err(_)) => 3, Err(_) => 101 }
+}
+fn search_parse_depth(ob: &str) {
+    let me = std::env::current_exe().unwrap();
+    let mut found = None;
+    let mut explored = 0;
+    for depth in [1usize, 10, 25, 40, 100, 200] {
+        for kind in ["valid", "typo", "cut", "badtype"] {
+            explored += 1;
+            let mut child = match std::process::Command::new(&me).arg("--parse-probe").arg(depth.to_string()).arg(kind)
+                .stdout(std::process::Stdio::null()).stderr(std::process::Stdio::null()).spawn() { Ok(c) => c, Err(_) => continue };
+            let t0 = std::time::Instant::now();
+            let mut status = None;
+            while t0.elapsed() < Duration::from_secs(20) {
+                if let Ok(Some(st)) = child.try_wait() { status = Some(st); break; }
+                std::thread::sleep(Duration::from_millis(5));
+            }
+            let want = if kind == "valid" { 0 } else { 3 };
+            match status {
+                None => { let _ = child.kill(); let _ = child.wait();
+                    if found.is_none() { found = Some(json!({"text": format!("method M(a: (f0: (f1: ... {} levels ... {}", depth, kind), "observed": "no answer within 20 s", "expected": "a definition or an error value"})); } }
+                Some(st) if st.code() != Some(want) => {
+                    if found.is_none() { found = Some(json!({"text": format!("struct nesting depth {}, innermost: {}", depth, kind), "observed": format!("exit {:?} (101 = panic, signal = stack overflow)", st.code()), "expected_exit": want})); } }
+                _ => {}
+            }
+            if found.is_some() { break; }
+        }
+        if found.is_some() { break; }
+    }
+    emit(ob, found.is_some(), explored, found.unwrap_or(Value::Null));
 }
 
 // C16 (activation clause): `Connection::with_activate(<real varlink-certification binary> --varlink=$VARLINK_ADDRESS)` followed by one GetInfo call, run in a
@@ -2172,6 +2215,9 @@ fn search_generate(obs: &[&str]) {
 }
 
 fn main() {
+    if std::env::args().nth(1).as_deref() == Some("--parse-probe") {
+        std::process::exit(parse_probe(std::env::args().nth(2).and_then(|d| d.parse().ok()).unwrap_or(1), &std::env::args().nth(3).unwrap_or_default()));
+    }
     if std::env::args().nth(1).as_deref() == Some("--cargo-build-probe") {
         std::process::exit(cargo_build_probe(&std::env::args().nth(2).unwrap_or_default()));
     }
@@ -2231,6 +2277,7 @@ fn main() {
     if !det && !bc.is_empty() { search_bridge_conn(&bc); }
     let pd: Vec<&str> = ["C12.line", "C12.no-panic"].iter().cloned().filter(|o| m(o)).collect();
     if !pd.is_empty() { search_parse_diag(&pd); }
+    if m("C12.terminates-bounded") { search_parse_depth("C12.terminates-bounded"); }
     let gen: Vec<&str> = ["C08.dispatch", "C08.method-name", "C08.args", "C08.client", "C08.no-panic"].iter().cloned().filter(|o| m(o)).collect();
     if !det && !gen.is_empty() { search_gen(&gen); }
     let cert: Vec<&str> = ["C19.gate", "C19.step", "C19.own-id", "C19.mode", "C19.value"].iter().cloned().filter(|o| m(o)).collect();
